@@ -229,6 +229,11 @@ def outputs_repr(result):
     return {"errored": bool(result.errored), "outputs": out, "cache_dir": os.path.basename(str(result.cache_dir))}
 
 
+# what the caller configured: constructor arguments of Job / Submitter / Audit, and the worker keyword arguments below
+REQUIRED = {"Job": ["task", "submitter", "name", "environment", "state_index", "hooks", "audit", "_cache_root"],
+            "Submitter": ["audit", "_cache_root", "readonly_caches", "propagate_rerun", "max_concurrent", "environment",
+                          "worker", "clean_stale_locks"],
+            "Audit": ["audit_flags", "messengers", "messenger_args", "develop"]}
 WORKER_KW = {"debug": {}, "cf": {"n_procs": 2}, "slurm": {"poll_delay": 2, "sbatch_args": "-N1"},
              "sge": {"poll_delay": 3, "qsub_args": "-q x"}}
 
@@ -265,6 +270,8 @@ def child_send(root):
             rec["checksum"] = job.checksum
             rec["before"] = abstract(job)
             rec["table"] = class_table(job)
+            rec["required"] = {"Job": REQUIRED["Job"], "Submitter": REQUIRED["Submitter"], "Audit": REQUIRED["Audit"],
+                               type(sub.worker).__name__: sorted(kw)}
             with open(os.path.join(d, "job.pkl"), "wb") as f:
                 cp.dump(job, f)
             sub.close()
@@ -295,8 +302,12 @@ def child_recv(root):
                     else:
                         res = job.run()
                     rec["result"] = outputs_repr(res)
-                except Exception as e:
+                except Exception as e:     # a failing task: the errored result is what must come back
                     rec["run_exception"] = "%s: %s" % (type(e).__name__, str(e)[:300])
+                    try:
+                        rec["result"] = outputs_repr(job.result())
+                    except Exception:
+                        pass
             try:
                 job.submitter.close()
             except Exception:
@@ -336,19 +347,20 @@ def child_read(root):
 # ====================================================================================== parent side
 IMPORTS = ["Model.Pickle", "Spec.Pickle"]
 EXTRA = """
-Definition case_t := (list (string * descr) * val * option val)%type.
+Definition case_t := (list (string * descr) * val * option val * list (string * list string))%type.
 (* the live class table meets the theorems' hypotheses and the model's round trip is what the other process saw *)
 Definition tie_ok (k : case_t) : bool :=
-  let '(t, before, after) := k in
+  let '(t, before, after, req) := k in
   push_wfb t && identity_safe (table t) "Job" &&
   match rt (table t) Some before, after with
   | Some m, Some a => val_eqb m a
   | None, None => true
   | _, _ => false
   end.
-(* every non-transient attribute, at every depth, is back *)
+(* nothing the caller configured is transient, and every non-transient attribute, at every depth, is back *)
 Definition spec_ok (k : case_t) : bool :=
-  let '(t, before, after) := k in
+  let '(t, before, after, req) := k in
+  config_safeb t req &&
   match after with Some a => survivesb (table t) before a | None => false end.
 """
 WORDS = ["hi", "a b", "x", "it's", "w"]
@@ -393,6 +405,21 @@ class Enc:
                           coqio.lst([coqio.pair(*[coqio.string(x) for x in p]) for p in e["push"]]))
             out.append(coqio.pair(coqio.string(cls), d))
         return coqio.lst(out)
+
+
+def enc_req(req):
+    from .lib import coqio
+    return coqio.lst([coqio.pair(coqio.string(c), coqio.lst([coqio.string(k) for k in ks])) for c, ks in sorted(req.items())])
+
+
+def missing_required(v, req, acc=None):
+    acc = [] if acc is None else acc
+    if v[0] == "obj":
+        keys = [k for k, _ in v[2]]
+        acc += ["%s.%s" % (v[1], k) for k in req.get(v[1], []) if k not in keys]
+        for _, x in v[2]:
+            missing_required(x, req, acc)
+    return acc
 
 
 def has_live(v):
@@ -508,7 +535,12 @@ def run(ctx):
         e = Enc()
         before = e.val(s["before"])
         after = e.val(v["after"]) if v and "after" in v else None
-        term = coqio.pair(e.table(s["table"]), before, coqio.option(after))
+        req = s.get("required", {})
+        missing = missing_required(s["before"], req)
+        if missing:
+            out.failures.append(Failure(case=pub, observed=missing, expected="the configured attributes exist on the objects",
+                                        note="harness: attribute names it expects are gone", kind="tie"))
+        term = coqio.pair(e.table(s["table"]), before, coqio.option(after), enc_req(req))
         enc_cases.append(term)
         meta.append({"case": pub, "table": s["table"], "term": term, "before": s["before"], "after": (v or {}).get("after")})
         for cls in s["table"]:
@@ -531,11 +563,11 @@ def run(ctx):
         for i in res[kind][:8]:
             m = meta[i]
             vals = coqio.eval_terms(ctx.scratch, "x%s%d" % (kind, i), IMPORTS,
-                                    ["let '(t, b, a) := %s in (push_wfb t, identity_safe (table t) \"Job\", picklableb (table t) b, rt (table t) Some b)" % m["term"]],
+                                    ["let '(t, b, a, q) := %s in (config_safeb t q, push_wfb t, identity_safe (table t) \"Job\", picklableb (table t) b, rt (table t) Some b)" % m["term"]],
                                     extra=EXTRA)
             out.failures.append(Failure(
                 case=m["case"], observed={"class_table": m["table"], "after": m["after"]},
-                expected={"model (push_wfb, identity_safe, picklableb, round trip)": vals[0][:4000]},
+                expected={"model (config_safeb, push_wfb, identity_safe, picklableb, round trip)": vals[0][:4000]},
                 note=("a non-transient attribute is not restored in the other process" if kind == "spec"
                       else "model/impl: class table hypotheses or predicted object graph"), kind=kind))
     return out
@@ -558,10 +590,10 @@ def replay(ctx, payload):
         e = Enc()
         before = e.val(s["before"])
         after = e.val(v["after"]) if v and "after" in v else None
-        term = coqio.pair(e.table(s["table"]), before, coqio.option(after))
+        term = coqio.pair(e.table(s["table"]), before, coqio.option(after), enc_req(s.get("required", {})))
         vals = coqio.eval_terms(ctx.scratch, "replay", IMPORTS, ["tie_ok %s" % term, "spec_ok %s" % term], extra=EXTRA)
         print("model = implementation (and table hypotheses hold):", vals[0])
-        print("spec (survivesb before after):", vals[1])
+        print("spec (config_safeb && survivesb before after):", vals[1])
 
 
 if __name__ == "__main__":
